@@ -3,6 +3,7 @@ package checkers
 import (
 	"go/ast"
 	"go/token"
+	"go/types"
 
 	"github.com/go-critic/go-critic/checkers/internal/astwalk"
 	"github.com/go-critic/go-critic/linter"
@@ -38,6 +39,13 @@ if err != nil {
 type nilValReturnChecker struct {
 	astwalk.WalkHandler
 	ctx *linter.CheckerContext
+
+	fn *ast.FuncDecl // Function declaration that is being walked
+}
+
+func (c *nilValReturnChecker) EnterFunc(fn *ast.FuncDecl) bool {
+	c.fn = fn
+	return fn.Body != nil
 }
 
 func (c *nilValReturnChecker) VisitStmt(stmt ast.Stmt) {
@@ -59,12 +67,53 @@ func (c *nilValReturnChecker) VisitStmt(stmt ast.Stmt) {
 	if !xIsNil {
 		return
 	}
-	for _, res := range ret.Results {
+	for i, res := range ret.Results {
 		if astequal.Expr(expr.X, res) {
+			if c.becomesInterface(ret, i, expr.X) {
+				// A nil pointer (map, func, ...) returned as an interface
+				// value is not a nil interface.
+				break
+			}
 			c.warn(ret, expr.X)
 			break
 		}
 	}
+}
+
+// becomesInterface reports whether returning x as the i-th result of ret
+// converts a value of a non-interface type to an interface type.
+func (c *nilValReturnChecker) becomesInterface(ret *ast.ReturnStmt, i int, x ast.Expr) bool {
+	if types.IsInterface(c.ctx.TypeOf(x)) {
+		return false
+	}
+	// Find the innermost function that encloses the return statement.
+	ftyp := c.fn.Type
+	ast.Inspect(c.fn.Body, func(n ast.Node) bool {
+		if n == nil || n.Pos() > ret.Pos() || n.End() < ret.End() {
+			return false
+		}
+		if lit, ok := n.(*ast.FuncLit); ok {
+			ftyp = lit.Type
+		}
+		return true
+	})
+	if ftyp.Results == nil {
+		return false
+	}
+	var results []ast.Expr
+	for _, field := range ftyp.Results.List {
+		n := len(field.Names)
+		if n == 0 {
+			n = 1
+		}
+		for ; n > 0; n-- {
+			results = append(results, field.Type)
+		}
+	}
+	if len(results) != len(ret.Results) {
+		return false
+	}
+	return types.IsInterface(c.ctx.TypeOf(results[i]))
 }
 
 func (c *nilValReturnChecker) warn(cause, val ast.Node) {
